@@ -1123,6 +1123,216 @@ Proof.
   unfold within. repeat split; lra.
 Qed.
 
+(* ---------------------------------------------------------------------------------------- *)
+(* over R the final clamp never acts: beta_q <= beta, delta_q within [-delta_1, delta_2]     *)
+(* ---------------------------------------------------------------------------------------- *)
+Lemma Rpower_root_le y b e : 0 < y -> 0 < b -> 0 < e -> y <= Rpower b e -> Rpower y (1 / e) <= b.
+Proof.
+  intros Hy Hb He H.
+  assert (H1 : Rpower y (1 / e) <= Rpower (Rpower b e) (1 / e)).
+  { apply Rle_Rpower_l; [left; apply Rdiv_lt_0_compat; lra|lra]. }
+  rewrite Rpower_mult in H1. replace (e * (1 / e)) with 1 in H1 by (field; lra).
+  rewrite Rpower_1 in H1; assumption.
+Qed.
+
+Lemma Rpower_root_ge y b e : 0 < y -> 0 < b -> 0 < e -> Rpower b e <= y -> b <= Rpower y (1 / e).
+Proof.
+  intros Hy Hb He H.
+  assert (H1 : Rpower (Rpower b e) (1 / e) <= Rpower y (1 / e)).
+  { apply Rle_Rpower_l; [left; apply Rdiv_lt_0_compat; lra|split; [apply Rpower_pos|exact H]]. }
+  rewrite Rpower_mult in H1. replace (e * (1 / e)) with 1 in H1 by (field; lra).
+  rewrite Rpower_1 in H1; assumption.
+Qed.
+
+(* beta_q never exceeds beta = 1 + 2*num/den *)
+Lemma betaq_le_beta eta rand num den : 0 <= eta -> in01 rand -> 0 <= num -> 0 < den ->
+  exists bq, pure_ok (sbxb_betaq O eta rand num den) bq /\ 0 <= bq <= 1 + 2 * num / den.
+Proof.
+  intros He [Hr0 Hr1] Hn Hd. unfold sbxb_betaq. rsimp.
+  assert (Hq : 0 <= 2 * num / den) by (apply Rmult_le_pos; [lra|left; now apply Rinv_0_lt_compat]).
+  set (beta := 1 + 2 * num / den) in *.
+  assert (Hbeta : 1 <= beta) by (unfold beta; lra).
+  destruct (pwR_pos beta (- (eta + 1)) ltac:(lra)) as [Ep _].
+  destruct (Rpower_neg_le1 beta (- (eta + 1)) Hbeta ltac:(lra)) as [Hp0 Hp1].
+  assert (HP : Rpower beta (- (eta + 1)) = / Rpower beta (eta + 1)) by apply Rpower_Ropp.
+  set (p := Rpower beta (- (eta + 1))) in *.
+  assert (Hex : 0 < 1 / (eta + 1)) by (apply Rdiv_lt_0_compat; lra).
+  assert (Ha : 1 <= 2 - p < 2) by lra.
+  destruct (Rleb rand (1 / (2 - p))) eqn:Eia.
+  - apply Rleb_true in Eia.
+    assert (Hra : 0 <= rand * (2 - p) <= 1).
+    { split; [apply Rmult_le_pos; lra|].
+      apply Rmult_le_compat_r with (r := 2 - p) in Eia; [|lra].
+      replace (1 / (2 - p) * (2 - p)) with 1 in Eia by (field; lra). exact Eia. }
+    destruct (pwR_unit _ _ Hra Hex) as (bq & Ebq & Hbq).
+    exists bq. split; [|lra].
+    eapply pure_bind; [apply pure_div; lra|]. fold beta.
+    eapply pure_bind; [apply pure_pw; exact Ep|]. fold p.
+    eapply pure_bind; [apply pure_div; lra|].
+    assert (Eb : Rleb rand (1 / (2 - p)) = true) by (apply Rleb_true; exact Eia). rewrite Eb.
+    eapply pure_bind; [apply pure_div; lra|]. apply pure_pw; exact Ebq.
+  - assert (Hra : rand * (2 - p) < 2) by nra.
+    assert (Hb : 0 < 1 / (2 - rand * (2 - p))) by (apply Rdiv_lt_0_compat; lra).
+    destruct (pwR_pos _ (1 / (eta + 1)) Hb) as [Ebq Hbq].
+    eexists. split.
+    + eapply pure_bind; [apply pure_div; lra|]. fold beta.
+      eapply pure_bind; [apply pure_pw; exact Ep|]. fold p.
+      eapply pure_bind; [apply pure_div; lra|]. rewrite Eia.
+      eapply pure_bind; [apply pure_div; lra|].
+      eapply pure_bind; [apply pure_div; lra|]. apply pure_pw; exact Ebq.
+    + split; [left; exact Hbq|].
+      apply Rpower_root_le; [exact Hb|lra|lra|].
+      (* 1/(2 - rand*alpha) <= beta^(eta+1) = 1/p  <=  p <= 2 - rand*alpha  <=  rand <= 1 *)
+      assert (HPpos : 0 < Rpower beta (eta + 1)) by apply Rpower_pos.
+      assert (EP : Rpower beta (eta + 1) = 1 / p).
+      { rewrite HP. field. apply Rgt_not_eq. exact HPpos. }
+      rewrite EP. unfold Rdiv. rewrite !Rmult_1_l.
+      apply Rinv_le_contravar; [exact Hp0|]. nra.
+Qed.
+
+(* shape of the bounded-SBX children over R: either the parents unchanged, or the two unclipped values
+   c1 <= midpoint <= c2, both already inside [xl, xu] — the final clamp only ever corrects rounding *)
+Definition sbxb_shape (xl xu a b : R) (c : R * R) : Prop :=
+  c = (a, b) \/
+  exists c1 c2, (c = (c1, c2) \/ c = (c2, c1)) /\
+                xl <= c1 <= (a + b) / 2 /\ (a + b) / 2 <= c2 <= xu.
+
+Lemma sbxb_gene_shape eta xl xu a b : 0 <= eta -> inb xl xu a -> inb xl xu b ->
+  spec 3 (sbxb_gene O eta xl xu a b) (sbxb_shape xl xu a b).
+Proof.
+  intros He Ha Hb. unfold inb in *. unfold sbxb_gene. apply spec_draw_bind. intros u1 Hu1. rsimp.
+  destruct (Rleb u1 (/ 2)); [|apply spec_ret_any; left; reflexivity].
+  destruct (Rltb eps (Rabs (a - b))) eqn:Eg; [|apply spec_ret_any; left; reflexivity].
+  apply Rltb_true in Eg.
+  assert (Hab : a <> b).
+  { intro E. subst b. rewrite Rminus_diag_eq in Eg by reflexivity. rewrite Rabs_R0 in Eg. lra. }
+  rewrite pymin_spec, pymax_spec.
+  assert (Hx : xl <= Rmin a b /\ Rmin a b < Rmax a b /\ Rmax a b <= xu /\ Rmin a b + Rmax a b = a + b).
+  { unfold Rmin, Rmax. destruct (Rle_dec a b); lra. }
+  set (x1 := Rmin a b) in *. set (x2 := Rmax a b) in *.
+  destruct Hx as (Hx1 & Hx12 & Hx2 & Hsum).
+  apply spec_draw_bind. intros rand Hrand.
+  destruct (betaq_le_beta eta rand (x1 - xl) (x2 - x1) He Hrand ltac:(lra) ltac:(lra)) as (bq1 & P1 & Hq1a & Hq1b).
+  destruct (betaq_le_beta eta rand (xu - x2) (x2 - x1) He Hrand ltac:(lra) ltac:(lra)) as (bq2 & P2 & Hq2a & Hq2b).
+  eapply spec_pure_bind; [exact P1|].
+  eapply spec_pure_bind; [exact P2|].
+  apply spec_draw_bind. intros u3 _.
+  assert (Hd : 0 < x2 - x1) by lra.
+  assert (K1 : bq1 * (x2 - x1) <= (x2 - x1) + 2 * (x1 - xl)).
+  { apply Rmult_le_compat_r with (r := x2 - x1) in Hq1b; [|lra].
+    replace ((1 + 2 * (x1 - xl) / (x2 - x1)) * (x2 - x1)) with ((x2 - x1) + 2 * (x1 - xl)) in Hq1b by (field; lra).
+    exact Hq1b. }
+  assert (K2 : bq2 * (x2 - x1) <= (x2 - x1) + 2 * (xu - x2)).
+  { apply Rmult_le_compat_r with (r := x2 - x1) in Hq2b; [|lra].
+    replace ((1 + 2 * (xu - x2) / (x2 - x1)) * (x2 - x1)) with ((x2 - x1) + 2 * (xu - x2)) in Hq2b by (field; lra).
+    exact Hq2b. }
+  assert (K1' : 0 <= bq1 * (x2 - x1)) by (apply Rmult_le_pos; lra).
+  assert (K2' : 0 <= bq2 * (x2 - x1)) by (apply Rmult_le_pos; lra).
+  set (c1 := / 2 * (x1 + x2 - bq1 * (x2 - x1))).
+  set (c2 := / 2 * (x1 + x2 + bq2 * (x2 - x1))).
+  assert (C1 : xl <= c1 <= (a + b) / 2) by (unfold c1; lra).
+  assert (C2 : (a + b) / 2 <= c2 <= xu) by (unfold c2; lra).
+  rewrite (clip_id c1 xl xu) by lra. rewrite (clip_id c2 xl xu) by lra.
+  destruct (Rleb u3 (/ 2)); apply spec_ret_any; right; exists c1, c2; (split; [auto|]); split; assumption.
+Qed.
+
+(* polynomial mutation: delta_q lies in [-delta_1, delta_2], so x + delta_q*(xu-xl) is inside [xl, xu] before the clamp *)
+Lemma poly_gene_shape eta indpb xl xu x : 0 <= eta -> xl < xu -> inb xl xu x ->
+  spec 2 (poly_gene O eta indpb xl xu x)
+       (fun y => y = x \/ exists dq, - ((x - xl) / (xu - xl)) <= dq <= (xu - x) / (xu - xl) /\
+                                     y = x + dq * (xu - xl) /\ xl <= y <= xu).
+Proof.
+  intros He Hlu Hx. unfold inb in *. unfold poly_gene. apply spec_draw_bind. intros u _. rsimp.
+  destruct (Rleb u indpb); [|apply spec_ret_any; left; reflexivity].
+  assert (Hd : 0 < xu - xl) by lra.
+  eapply spec_pure_bind; [apply pure_div; lra|].
+  eapply spec_pure_bind; [apply pure_div; lra|].
+  apply spec_draw_bind. intros rand [Hr0 Hr1].
+  eapply spec_pure_bind; [apply pure_div; lra|].
+  assert (Hex : 0 < 1 / (eta + 1)) by (apply Rdiv_lt_0_compat; lra).
+  set (d1 := (x - xl) / (xu - xl)). set (d2 := (xu - x) / (xu - xl)).
+  assert (Hd1 : 0 <= d1 <= 1).
+  { unfold d1. split; [apply Rmult_le_pos; [lra|left; now apply Rinv_0_lt_compat]|].
+    apply Rmult_le_reg_r with (xu - xl); [lra|]. unfold Rdiv. rewrite Rmult_assoc, Rinv_l; lra. }
+  assert (Hd2 : 0 <= d2 <= 1).
+  { unfold d2. split; [apply Rmult_le_pos; [lra|left; now apply Rinv_0_lt_compat]|].
+    apply Rmult_le_reg_r with (xu - xl); [lra|]. unfold Rdiv. rewrite Rmult_assoc, Rinv_l; lra. }
+  assert (E1 : d1 * (xu - xl) = x - xl) by (unfold d1; field; lra).
+  assert (E2 : d2 * (xu - xl) = xu - x) by (unfold d2; field; lra).
+  (* root of something between xy^(eta+1) and 1 lies between xy and 1 *)
+  assert (Root : forall xy p val q, 0 <= xy <= 1 -> pwR xy (eta + 1) = Ok p -> p <= val <= 1 -> 0 <= val ->
+                 pwR val (1 / (eta + 1)) = Ok q -> xy <= q <= 1).
+  { intros xy p val q Hxy Ep Hval Hv0 Eq. unfold pwR in Ep, Eq.
+    destruct (Rlt_dec 0 val) as [Hvp|Hvn].
+    - inversion Eq; subst q. split; [|apply Rpower_le1; lra].
+      destruct (Rlt_dec 0 xy) as [Hxp|Hxn].
+      + inversion Ep; subst p. apply Rpower_root_ge; lra.
+      + left. eapply Rle_lt_trans; [|apply Rpower_pos]. lra.
+    - assert (val = 0) by lra. subst val.
+      destruct (Req_EM_T 0 0); [|lra]. destruct (Rlt_dec 0 (1 / (eta + 1))); [|lra].
+      inversion Eq; subst q.
+      destruct (Rlt_dec 0 xy) as [Hxp|Hxn].
+      + inversion Ep; subst p. pose proof (Rpower_pos xy (eta + 1)). lra.
+      + lra. }
+  destruct (Rltb rand (/ 2)) eqn:Eh.
+  - apply Rltb_true in Eh.
+    destruct (pwR_unit (1 - d1) (eta + 1) ltac:(lra) ltac:(lra)) as (p & Ep & Hp).
+    assert (Hval : p <= 2 * rand + (1 - 2 * rand) * p <= 1) by nra.
+    destruct (pwR_nonneg (2 * rand + (1 - 2 * rand) * p) _ ltac:(lra) Hex) as (q & Eq & _).
+    destruct (Root (1 - d1) p _ q ltac:(lra) Ep Hval ltac:(lra) Eq) as [Hq1 Hq2].
+    eapply spec_pure_bind.
+    { eapply pure_bind; [apply pure_pw; exact Ep|].
+      eapply pure_bind; [apply pure_pw; exact Eq|]. apply pure_ret. }
+    assert (B : xl <= x + (q - 1) * (xu - xl) <= xu) by nra.
+    rewrite clip_id by exact B.
+    apply spec_ret_any. right. exists (q - 1). fold d1 d2. repeat split; lra.
+  - apply Rltb_false in Eh.
+    destruct (pwR_unit (1 - d2) (eta + 1) ltac:(lra) ltac:(lra)) as (p & Ep & Hp).
+    assert (Hval : p <= 2 * (1 - rand) + 2 * (rand - / 2) * p <= 1) by nra.
+    destruct (pwR_nonneg (2 * (1 - rand) + 2 * (rand - / 2) * p) _ ltac:(lra) Hex) as (q & Eq & _).
+    destruct (Root (1 - d2) p _ q ltac:(lra) Ep Hval ltac:(lra) Eq) as [Hq1 Hq2].
+    eapply spec_pure_bind.
+    { eapply pure_bind; [apply pure_pw; exact Ep|].
+      eapply pure_bind; [apply pure_pw; exact Eq|]. apply pure_ret. }
+    assert (B : xl <= x + (1 - q) * (xu - xl) <= xu) by nra.
+    rewrite clip_id by exact B.
+    apply spec_ret_any. right. exists (1 - q). fold d1 d2. repeat split; lra.
+Qed.
+
+(* mutESLogNormal with indpb = 0 on a non-empty individual returns normally (one gauss, one random per gene) *)
+Lemma eslog_loop_indpb0_spec t t0n g : forall st,
+  spec (length g) (eslog_loop O t t0n 0 g st) (fun r => r = (g, st)).
+Proof.
+  induction g as [|x g IH]; intros st; [now apply spec_ret_any|].
+  cbn [eslog_loop length]. apply spec_draw_bind. intros u [Hu0 _]. rsimp.
+  assert (E : Rltb u 0 = false) by (apply Rltb_false; exact Hu0). rewrite E.
+  destruct st as [|sg st].
+  - eapply spec_weaken with (k := (length g + 0)%nat); [lia|intros a Ha; exact Ha|].
+    eapply spec_bind; [apply (IH [])|]. intros [gr sr] Hr. inversion Hr; subst. now apply spec_ret.
+  - eapply spec_weaken with (k := (length g + 0)%nat); [lia|intros a Ha; exact Ha|].
+    eapply spec_bind; [apply (IH st)|]. intros [gr sr] Hr. inversion Hr; subst. now apply spec_ret.
+Qed.
+
+Lemma mut_es_lognormal_indpb0_defined c g st z us :
+  g <> [] -> Forall in01 us -> (length g <= length us)%nat ->
+  exists us', mut_es_lognormal O c 0 g st (EGauss 0 1 z :: rs us) = Ok ((g, st), rs us').
+Proof.
+  intros Hg Hus Hlen. unfold mut_es_lognormal. rsimp.
+  assert (Hn : 0 < INR (length g)).
+  { apply lt_0_INR. destruct g; [contradiction|simpl; lia]. }
+  assert (H1 : sqrt (2 * sqrt (INR (length g))) <> 0).
+  { apply Rgt_not_eq. apply sqrt_lt_R0. pose proof (sqrt_lt_R0 _ Hn). lra. }
+  assert (H2 : sqrt (2 * INR (length g)) <> 0).
+  { apply Rgt_not_eq. apply sqrt_lt_R0. lra. }
+  rewrite (bind_pure _ _ _ _ (pure_div c _ H1)).
+  rewrite (bind_pure _ _ _ _ (pure_div c _ H2)).
+  unfold bind at 1, draw_gauss at 1. rsimp. unfold Rsame.
+  destruct (Req_EM_T 0 0); [|lra]. destruct (Req_EM_T 1 1); [|lra]. cbn [andb].
+  destruct (eslog_loop_indpb0_spec (c / sqrt (2 * sqrt (INR (length g))))
+              (c / sqrt (2 * INR (length g)) * z) g st us Hus Hlen) as (r & pre & us' & _ & _ & E & Hr).
+  subst r. exists us'. exact E.
+Qed.
+
 Lemma cx_sbx_bounded_defined_in_bounds : forall eta low up ind1 ind2,
   0 <= eta ->
   let size := Nat.min (length ind1) (length ind2) in
